@@ -18,6 +18,8 @@ DECIDED_R6 = ('Round 6: test tables and a None sentinel of a locating helper are
 DECIDED = DECIDED + ' ' + DECIDED_R6
 DECIDED_R7 = ('Round 7: all() / any() over literal tuples of tests and walrus forms are normalised away.')
 DECIDED = DECIDED + ' ' + DECIDED_R7
+DECIDED_R8 = ('Round 8: every answer other than 403 / 404 lies behind the pass edge of the containment test.')
+DECIDED = DECIDED + ' ' + DECIDED_R8
 NOT_DECIDED = 'symlinks inside the root (outside the statement\'s "normalised location"); behaviour of os.path itself.'
 ASSUMPTIONS = ['os.path.abspath normalises "."/".."/repeated separators lexically and returns no trailing separator',
                'os.path.join(root, x) with x stripped of leading separators stays relative to root']
